@@ -82,6 +82,31 @@ let eval inp obs =
       List.sort compare o = List.sort compare (List.map hex_of_bytes ids) && triples_sorted dec in
     { default_verdict with model_obs; spec_ok = Some (spec obs); model_spec_ok = spec model_obs;
       nontrivial = List.length ts >= 2 }
+  | "ENCHIST" :: rest ->
+    (* ENCHIST ; E k sel v ; L k v ; A i hex ; W i pos b ; X i k sel v ; D k i
+       obs: one token per step: hex of the returned encoding at the time of return (E, L, X), the
+       decoded number or "short" (D), "-" for caller-side mutations (A, W) *)
+    let groups = List.filter (fun g -> g <> []) (split_on ";" rest) in
+    let ops = List.map (function
+      | ["E"; k; _; v] -> HEnc (nat_of_tok k, n_of_tok v)
+      | ["L"; k; v] -> HLe (nat_of_tok k, n_of_tok v)
+      | ["A"; i; h] -> HAppend (nat_of_tok i, bytes_of_hex h)
+      | ["W"; i; pos; b] -> HWrite (nat_of_tok i, nat_of_tok pos, n_of_tok b)
+      | ["X"; i; k; _; v] -> HAppendEnc (nat_of_tok i, nat_of_tok k, n_of_tok v)
+      | ["D"; k; i] -> HDec (nat_of_tok k, nat_of_tok i)
+      | _ -> failwith "bad history op") groups in
+    let tok = function
+      | OBytes bs -> if bs = [] then "empty" else hex_of_bytes bs
+      | ONum n -> tok_of_n n | OShort -> "short" | ONone -> "-" in
+    let model_obs = List.map tok (hrun [] ops) in
+    (* spec: every encoder call returns the encoding of its own argument, whatever came before *)
+    let rec chk ops obs = (match ops, obs with
+      | [], [] -> true
+      | op :: r, o :: ro ->
+        (match enc_of op with Some bs -> o = tok (OBytes bs) | None -> true) && chk r ro
+      | _ -> false) in
+    { default_verdict with model_obs; spec_ok = Some (chk ops obs); model_spec_ok = chk ops model_obs;
+      nontrivial = List.exists (function HAppend _ | HWrite _ | HAppendEnc _ -> true | _ -> false) ops }
   | _ -> failwith "bad case"
 
 let () = run eval
